@@ -123,6 +123,56 @@ func (v val) toVariant() *variants.Variant {
 	panic("bad val kind " + v.K)
 }
 
+// toHostVariant builds the same value through the host-value constructor (NewVariant / VariantFromObject), using
+// every Go type the constructor maps to the value's variant type (int / int32 / uint / uint32 / int64 ...).
+func (v val) toHostVariant(pick int) *variants.Variant {
+	var host interface{}
+	switch v.K {
+	case "null":
+		host = nil
+	case "int":
+		switch {
+		case pick%3 == 1 && v.I >= math.MinInt32 && v.I <= math.MaxInt32:
+			host = int32(v.I)
+		default:
+			host = int(v.I)
+		}
+	case "long":
+		switch {
+		case pick%3 == 1 && v.I >= 0 && v.I <= math.MaxUint32:
+			host = uint32(v.I)
+		case pick%3 == 2 && v.I >= 0:
+			host = uint(v.I)
+		default:
+			host = v.I
+		}
+	case "float":
+		host = float32(parseFloat(v.F))
+	case "double":
+		host = parseFloat(v.F)
+	case "string":
+		host = v.S
+	case "bool":
+		host = v.I != 0
+	case "timespan":
+		host = time.Duration(v.I)
+	case "datetime":
+		host = v.toTime()
+	case "array":
+		els := make([]*variants.Variant, len(v.A))
+		for i, e := range v.A {
+			els[i] = e.toHostVariant(pick + i + 1)
+		}
+		host = els
+	default:
+		return v.toVariant()
+	}
+	if pick%2 == 0 {
+		return variants.NewVariant(host)
+	}
+	return variants.VariantFromObject(host)
+}
+
 func (v val) toTime() time.Time {
 	switch v.Z {
 	case "zero":
